@@ -132,6 +132,7 @@ func execute(c *core.Ctx) {
 	seedGlobals(p.Seed)
 	s.actors = makeActors(p.Seed, int(p.Knob("actors", 5)))
 	s.nKeyed = len(s.actors)
+	s.actors = addMultisigActors(s.actors, s.nKeyed, p.Seed, int(p.Knob("multi", 0)))
 	s.actors = addScriptActors(s.actors, p.Seed, int(p.Knob("weird", 0)), int(p.Knob("weirdpick", 0)))
 	if err := s.start(true); err != nil {
 		panic(fmt.Sprintf("harness: node start: %v", err))
@@ -395,7 +396,10 @@ func panicSite(stack string) string {
 }
 
 func (s *sim) retained(b *mBlock) bool {
-	return s.node.chain.BlockExists(&b.hash)
+	// "knows": the block is in the node's block index / store, or parked in
+	// its orphan pool (the node answers "already have block (orphan)" to a
+	// second delivery, so nobody can make it known any better)
+	return s.node.chain.BlockExists(&b.hash) || s.node.chain.IsKnownOrphan(&b.hash)
 }
 
 func (s *sim) allKnown(b *mBlock) bool {
